@@ -390,6 +390,9 @@ RULES = [
     ("C09.floor", rule_floor),
     ("C09.wqguard", lambda c, r: lfht.rule_wqguard(c, r, "C09.wqguard")),
     ("C09.emptywalk", lambda c, r: lfht.rule_emptywalk(c, r, "C09.emptywalk")),
-    ("C09.gc", lambda c, r: lfht.rule_gc(c, r, "C09.gc")),   # a shrink unlinks the level's bucket nodes before freeing it
+    ("C09.gc", lambda c, r: lfht.rule_gc(c, r, "C09.gc")),
+    ("C09.tables", lambda c, r: lfht.rule_mm(c, r, "C09.tables")),
+    ("C09.newparams", lambda c, r: lfht.rule_newparams(c, r, "C09.newparams")),   # bucket memory of a level is allocated (again) before the level is published   # a shrink unlinks the level's bucket nodes before freeing it
+    ("C09.wq", lambda c, r: __import__("sa.rules.wq", fromlist=["x"]).rule_workqueue(c, r, "C09.wq")),   # the work queue that executes resizes / deferred destroys
 ]
 FLOORS = {"C09.pow2": 4}
